@@ -62,7 +62,8 @@ Fixpoint nset (n : node) (p : path) (v : node) : option node :=
   end.
 
 (* ---- expressions -------------------------------------------------------------- *)
-Inductive binop := BAdd | BSub | BMul.
+Inductive binop := BAdd | BSub | BMul | BMod | BFdiv.     (* %, // : Python's floor semantics on ints = Z.modulo, Z.div;
+                                                             the harness generates non-zero constant divisors only *)
 
 Inductive proj := PReal | PImag | PNum | PDen.
 
@@ -84,7 +85,7 @@ Inductive expr :=
                                            an AttrRef whose owner is an expression node, not a container *)
 
 Definition bin (o : binop) (x y : Z) : Z :=
-  match o with BAdd => x + y | BSub => x - y | BMul => x * y end.
+  match o with BAdd => x + y | BSub => x - y | BMul => x * y | BMod => x mod y | BFdiv => x / y end.
 
 Fixpoint sum_leaves (kids : list (N * node)) : option Z :=
   match kids with
